@@ -418,6 +418,9 @@ def _fresh():
         cc()
 
 
+_BUF = {}
+
+
 def _call(o):
     """one public call on the real implementation; returns the raw result"""
     from geomdl import linalg
@@ -425,6 +428,14 @@ def _call(o):
     if k == 'ident':
         return [linalg.matrix_identity(o['n'])]
     A = qpts(o['A'])
+    buf = _BUF.get((k in ('lusolve', 'lufactor'), len(A), len(A[0]) if A else 0))
+    if buf is not None and o.get('_reuse'):
+        # the caller refills the matrix object he used in the previous call of this kind (same list objects, new entries)
+        for r_, row in enumerate(A):
+            for c_, x_ in enumerate(row):
+                buf[r_][c_] = x_
+        A = buf
+    _BUF[(k in ('lusolve', 'lufactor'), len(A), len(A[0]) if A else 0)] = A
     o['_args'] = [A]                  # kept so that the oracle can see whether a routine modified its arguments
     if 'b' in o:
         o['_args'].append(None)
@@ -447,13 +458,23 @@ def _call(o):
 def _run(ops):
     """the history on the real implementation: list of raw results / None for an exception"""
     _fresh()
+    _BUF.clear()
     res = []
-    for o in ops:
+    for n_, o in enumerate(ops):
+        o['_reuse'] = (n_ % 2 == 1)       # every second call of a history reuses the caller's matrix object
         try:
             res.append(_call(o))
         except Exception:
             o.pop('_args', None)
             res.append(None)
+        o.pop('_reuse', None)
+        # the arguments are judged NOW (a later call may legitimately refill the same objects)
+        if '_args' in o:
+            if _fx(o['_args'][0]) != o['A']:
+                o['_argsmod'] = "%s modified its matrix argument in place" % o['call']
+            elif len(o['_args']) > 1 and o['_args'][1] is not None and _fx(o['_args'][1]) != o['b']:
+                o['_argsmod'] = "%s modified its right-hand side argument in place" % o['call']
+            o.pop('_args', None)
     return res
 
 
@@ -620,12 +641,9 @@ def oracle(c):
         for i, (o, r) in enumerate(zip(ops, res)):
             why = _check_call(o, r)
             # the routines answer questions about their arguments: they must not modify them
-            if not why and '_args' in o:
-                if _fx(o['_args'][0]) != o['A']:
-                    why = "%s modified its matrix argument in place" % o['call']
-                elif len(o['_args']) > 1 and o['_args'][1] is not None and _fx(o['_args'][1]) != o['b']:
-                    why = "%s modified its right-hand side argument in place" % o['call']
-            o.pop('_args', None)
+            if not why and o.get('_argsmod'):
+                why = o['_argsmod']
+            o.pop('_argsmod', None)
             if why:
                 if _is_f16b(o, why):
                     known = known or why
